@@ -181,12 +181,26 @@ def corrupt_fields(f, val):
     return sorted(d) if isinstance(d, dict) else []
 
 
-def api_write(root, key, val, api, sp=1, species_override=None, charge_override=None, corrupt=None):
+_LAST_INPUT = []        # the data object handed to the most recent write (reused by 'shared' writes)
+
+
+_COPIES = {}            # key -> source key of the shared write that last wrote it (Repository.tla: WriteSame)
+
+
+def value_of(key, ev):
+    """content for a stored id: a value id of the key itself, or CopyOf(v0) = a copy of what was written under the source key"""
+    if ev > 10:
+        return value(_COPIES[tuple(key)], ev - 10)
+    return value(key, ev)
+
+
+def api_write(root, key, val, api, sp=1, species_override=None, charge_override=None, corrupt=None, data_obj=None):
     """Write one key through the add_* (api='add') or update_* (api='update') front-end.
     corrupt = (field, 'missing' | 'none' | 'text'): the field is removed / None / a word in the data handed over."""
     from cherab.openadas import repository as R
     f = key[0]
-    d = _input_form(f, val)
+    d = _input_form(f, val) if data_obj is None else data_obj
+    _LAST_INPUT[:] = [d]
     if corrupt is not None:
         fld, how = corrupt
         if fld not in d:
@@ -417,7 +431,7 @@ def _compare(root, universe, e, only_family=None):
             elif ev == INST:
                 if not close_tables(r[1], inst_value(key)):
                     viol.append({"sig": f"{opname}:wrong-value@{where}", "detail": f"key {key}: expected the tables of the installed file, read something else"})
-            elif ev != 0 and not same(r[1], value(key, ev)):
+            elif ev != 0 and not same(r[1], value_of(key, ev)):
                 other = [v for v in (1, 2, 3) if v != ev and same(r[1], value(key, v))]
                 viol.append({"sig": f"{opname}:wrong-value@{where}",
                              "detail": f"key {key}: expected value id {ev}, read " + (f"value id {other[0]}" if other else "something else")})
@@ -436,7 +450,16 @@ def _step(root, e):
     """-> None | violation dict | {'unasserted':..}"""
     if e["op"] == "write":
         try:
-            api_write(root, e["k"], value(e["k"], e["v"]), e["api"], e["sp"])
+            if e.get("shared"):
+                # the caller passes the object it passed to the preceding write (arrays for value id 2, lists for 1)
+                _COPIES[tuple(e["k"])] = tuple(e["from"])
+                api_write(root, e["k"], None, e["api"], e["sp"], data_obj=_LAST_INPUT[0])
+            else:
+                val = value(e["k"], e["v"])
+                obj = _input_form(e["k"][0], val)
+                if e["v"] == 2 and isinstance(obj, dict):
+                    obj = {k: (np.array(x) if isinstance(x, list) else x) for k, x in obj.items()}
+                api_write(root, e["k"], val, e["api"], e["sp"], data_obj=obj)
         except Exception as ex:          # noqa: BLE001
             return {"sig": f"{e['k'][0]}.{e['api']}:raised-{type(ex).__name__}", "detail": repr(ex)[:300]}
     elif e["op"] == "multi":
@@ -511,6 +534,7 @@ CONSTANTS
   InstFronts = {fronts}
   Probes = {probes}
   FieldRejects = {fieldrej}
+  SharedInputs = {shared}
   SameFamily = {same}
 INVARIANT TypeOK
 INVARIANT LastWriteWins
@@ -523,6 +547,7 @@ ACTION_CONSTRAINT Emit
 def _run_edges(v, name, **kw):
     kw.setdefault("probes", "{FALSE}")
     kw.setdefault("fieldrej", "FALSE")
+    kw.setdefault("shared", "FALSE")
     cfg = CFG.format(**kw)
     res = core.run_tlc("Repository", cfg, workers=1, seed=v.seed, tag="C06-" + name, timeout=3000)
     core.tlc_must_pass(res, "Repository/" + name)
@@ -545,16 +570,20 @@ def run(v):
     runs = []
     hd = '{"h", "d"}'
     if v.tier == "quick":
-        runs.append(("same-family-depth2", dict(species=hd, donors=hd, apis='{"add"}', maxhist=2, maxmulti=0, same="TRUE", fronts=ALLF, probes="{FALSE, TRUE}", fieldrej="TRUE")))
+        runs.append(("same-family-depth2", dict(species=hd, donors=hd, apis='{"add"}', maxhist=2, maxmulti=0, same="TRUE", fronts=ALLF, probes="{FALSE, TRUE}", fieldrej="TRUE", shared="TRUE")))
         runs.append(("cross-family-depth1", dict(species='{"h", "d", "c"}', donors=hd, apis='{"add", "update"}', maxhist=1, maxmulti=0, same="FALSE", fronts=ALLF)))
         runs.append(("pair-updates-depth1", dict(species=hd, donors=hd, apis='{"update"}', maxhist=1, maxmulti=2, same="TRUE", fronts="{}")))
     else:
-        runs.append(("same-family-depth2", dict(species='{"h", "d", "c"}', donors=hd, apis='{"add", "update"}', maxhist=2, maxmulti=0, same="TRUE", fronts=ALLF, probes="{FALSE, TRUE}", fieldrej="TRUE")))
+        runs.append(("same-family-depth2", dict(species='{"h", "d", "c"}', donors=hd, apis='{"add", "update"}', maxhist=2, maxmulti=0, same="TRUE", fronts=ALLF, probes="{FALSE, TRUE}", fieldrej="TRUE", shared="TRUE")))
         runs.append(("cross-family-depth1", dict(species='{"h", "d", "c"}', donors=hd, apis='{"add", "update"}', maxhist=1, maxmulti=2, same="FALSE", fronts=ALLF)))
         runs.append(("cross-family-depth2", dict(species=hd, donors='{"h"}', apis='{"add"}', maxhist=2, maxmulti=0, same="FALSE", fronts=ALLF)))
     unasserted = {}
     for name, kw in runs:
         universe, edges = _run_edges(v, name, **kw)
+        if kw.get("shared") == "TRUE" and not any(e.get("shared") for r in edges for e in r["h"]):
+            raise core.MachineryError("vacuity: no shared-input write explored")
+        if kw.get("fieldrej") == "TRUE" and len({(e["k"][0], e.get("fld")) for r in edges for e in r["h"] if e["op"] == "reject" and e.get("fld")}) < 50:
+            raise core.MachineryError("vacuity: field rejections missing")
         out = core.fan_out("mbt.c06", "replay", edges, {"universe": universe, "narrow": kw["same"] == "TRUE"})
         for rec, viols in zip(edges, out):
             for x in viols:
